@@ -86,12 +86,18 @@ def case(chk, i):
     out = []
     for s in range(chk.pick(3, 8)):
         r = chk.rng("sel", i, s)
-        mode = r.choice(["blocklist-type", "blocklist-item", "opaque-type", "opaque-type", "mixed"])
+        mode = r.choice(["blocklist-type", "blocklist-item", "opaque-type", "opaque-type", "mixed", "hide-annotation"])
         k = r.randint(1, max(1, len(named) // 3))
         chosen = r.sample(named, k)
+        if mode == "hide-annotation":
+            # prefer a record that several others embed by value (the exclusion then has to hold for every user, not just the first)
+            users = lambda c: sum(1 for o in named if o is not c and direct_container(o, {c.rust_name}))
+            ranked = sorted([c for c in named if c.name and not c.typedef_name], key=users, reverse=True)
+            if ranked and users(ranked[0]) >= 2:
+                chosen = [ranked[0]]
         block, opaque = [], []
         for c in chosen:
-            if mode.startswith("blocklist") or (mode == "mixed" and r.random() < 0.5):
+            if mode.startswith("blocklist") or mode == "hide-annotation" or (mode == "mixed" and r.random() < 0.5):
                 block.append(c)
             else:
                 opaque.append(c)
@@ -100,7 +106,23 @@ def case(chk, i):
             benum = [r.choice(model.enums)]
         flags = []
         raw = []
+        hdr_override = None
+        if mode == "hide-annotation":
+            # the annotation form of exclusion: `/** <div rustbindgen hide></div> */` in front of the record
+            text = model.header()
+            for b in block:
+                head = ("typedef %s {" % b.kw) if b.typedef_name else ("%s %s {" % (b.kw, b.name))
+                # tag-less typedef records cannot be addressed textually in a unique way: fall back to the option
+                if b.typedef_name or text.count(head) != 1:
+                    flags += ["--blocklist-type", b.rust_name]
+                else:
+                    text = text.replace(head, "/** <div rustbindgen hide></div> */\n" + head)
+            hdr_override = write(os.path.join(d, "hide_%d.h" % s), text)
         for b in block:
+            if mode == "hide-annotation":
+                sz, al = sizes[b.rust_name]
+                raw.append("#[repr(C, align(%d))] #[derive(Copy, Clone)] pub struct %s(pub [u8; %d]);" % (al, b.rust_name, sz))
+                continue
             flags += ["--blocklist-item" if mode == "blocklist-item" else "--blocklist-type", b.rust_name]
             sz, al = sizes[b.rust_name]
             raw.append("#[repr(C, align(%d))] #[derive(Copy, Clone)] pub struct %s(pub [u8; %d]);" % (al, b.rust_name, sz))
@@ -119,7 +141,12 @@ def case(chk, i):
         for line in raw:
             rawflags += ["--raw-line", line]
         # a blocklisted type with over-large alignment inside a packed container cannot be expressed; skip those selections
+        if hdr_override:
+            saved = hp.header
+            hp.header = hdr_override
         res = hp.run_optset("s%d" % s, flags + rawflags, layout_only_recs=affected)
+        if hdr_override:
+            hp.header = saved
         files = dict(hp.files())
         files.update(res.get("files", {}))
         probs = htypes.classify(res, "s%d" % s, model)
@@ -174,6 +201,23 @@ def case(chk, i):
                             problems.append("%s contains blocklisted type by value but derives %s without the user vouching" % (rr.rust_name, sorted(der)))
         if any(sg == "c01.packed-contains-aligned" for kd, w, sg in probs):
             known_sig = "c01.packed-contains-aligned"
+        # a container that derives a trait its blocklisted / opaque member does not implement (rustc E0277 naming a selected type)
+        if res["status"] == "rustc-failed":
+            err = res.get("stderr", "")
+            hits = set(re.findall(r"`(\w+)` doesn't implement `(\w+)`", err)) | set(
+                (a, b) for a, b in re.findall(r"the trait bound `(\w+): (\w+)` is not satisfied", err)) | set(
+                (a, "PartialEq") for a in re.findall(r"can't compare `(\w+)` with", err)) | set(
+                (a, "PartialEq") for a in re.findall(r"binary operation `==` cannot be applied to type `(\w+)`", err))
+            sel = [(t, tr) for t, tr in hits if t in bnames | onames]
+            if sel:
+                opaque_union = {o.rust_name for o in opaque if o.kw == "union"}
+                opaque_only = all(t in onames for t, tr in sel)
+                cons = all((tr in ("Eq", "Hash", "Ord", "PartialOrd", "PartialEq") and t in onames) or (t in opaque_union) for t, tr in sel)
+                if opaque_only and cons:
+                    # consequence of the recorded C07 finding (facts of opaque records are schedule dependent) / opaque unions
+                    known_sig = "c10.container-derives-through-opaque"
+                problems.append("a container derives a trait that its %s member does not implement: %s" % (
+                    "opaque" if opaque_only else "blocklisted", sorted(sel)[:4]))
         for w, sg in viol:
             problems.append(w)
         if problems:
@@ -191,7 +235,7 @@ def case(chk, i):
         # without the user's definitions the only errors must be "cannot find type X" for exactly the blocklisted names
         if bnames and res["status"] == "ok" and s == 0:
             b2 = os.path.join(d, "nodef.rs")
-            rc, so, se, _ = htypes.bindgen(hp.header, flags, b2)
+            rc, so, se, _ = htypes.bindgen(hdr_override or hp.header, flags, b2)
             if rc == 0:
                 w = write(os.path.join(d, "wnodef.rs"), '#![allow(warnings)]\ninclude!("%s");\n' % b2)
                 rcr, sor, ser, _ = sh(["rustc", "--edition", "2021", "--crate-type", "lib", "--emit=metadata", "-o", os.path.join(d, "wnodef.rmeta"), w], timeout=120)
@@ -238,7 +282,7 @@ def vouch_case(chk, i):
         res[tag] = ({it["name"]: set(it.get("derives", [])) & NINE for it in inv["items"] if it["kind"] in ("struct", "union")},
                     [l for l in r["results"][0]["callbacks"] if l.startswith("blocklisted_type_implements_trait")])
     problems = []
-    memo = {id(b): {"float": False, "ptr": False, "big": False, "union": False, "enum": False, "fnptr": False}}
+    memo = {id(b): {"float": False, "ptr": False, "big": False, "union": False, "enum": False, "fnptr": False, "fnptr_many": False}}
     nchk = 0
     for rr in model.records:
         if rr is b or not direct_container(rr, {b.rust_name}):
